@@ -456,7 +456,10 @@ fn gen_doc(rng: &mut Rng, alpha: &[&str], maxw: usize, oov: bool) -> String {
 
 fn gen_bound(rng: &mut Rng, n: usize) -> f32 {
     const GRID: &[f32] = &[0.0, 0.05, 0.1, 0.2, 0.25, 0.3, 1.0 / 3.0, 0.4, 0.5, 0.6, 2.0 / 3.0, 0.7, 0.75, 0.8, 0.9, 1.0];
-    match rng.below(10) {
+    match rng.below(11) {
+        // dyadic bounds: `bound * n` is exact, so a document frequency exactly on the bound is a
+        // decided case (inclusive window) whenever 16 | k * n
+        10 => rng.below(17) as f32 / 16.0,
         0..=3 => *rng.pick(GRID),
         4..=6 if n > 0 => rng.below(n + 1) as f32 / n as f32,
         7 if n > 0 => (rng.below(2 * n + 1) as f32 + 0.5) / (2 * n) as f32,
